@@ -82,6 +82,16 @@ static int cmp_key_by_value(void const *ctx, void const *r)
     return cmp_shape((int)(uintptr_t)ctx, ((hnode const *)r)->key);
 }
 
+/* heterogeneous lookup: the context is a RESIDENT element, and the comparator reads something other than the key that element is stored under (parent id
+   vs own id, foreign key, interval end ...). ctx is opaque to the library, so the address of the probe says nothing about the key asked for (seeded
+   changes C01-M / C02-M: `if (ctx == cur) return cur;` as a "membership test" fast path returns the probe itself for whatever key is asked) */
+static int alt_key;
+static int cmp_alt(void const *ctx, void const *r)
+{
+    if (((hnode const *)ctx)->magic != NODE_MAGIC) { vf_viol(TN "/search/comparator-got-a-context-it-was-not-given", "ctx does not point at the probe element"); }
+    return cmp_shape(alt_key, ((hnode const *)r)->key);
+}
+
 /* node layout: packed parent/meta word (A_SIZE_POINTER large enough) or separate members (-DA_SIZE_POINTER=1 build) */
 #ifdef VF_TREE_RBT
 #if defined(A_SIZE_POINTER) && (A_SIZE_POINTER + 0 > 1)
@@ -641,6 +651,17 @@ static void do_search(troot *root, int key)
         VF_COUNT("search-with-the-key-carried-in-the-context-pointer");
         if (key == 0) { VF_COUNT("search-with-a-null-context-pointer"); }
         if (v != h) { vf_viol(TN "/search/opaque-context-pointer", "key %d carried in the context pointer (%s): search returns %s, with a pointer to the key it returns %s", key, key ? "non-null" : "NULL", v ? "a node" : "null", h ? "a node" : "null"); }
+    }
+    /* probes: the root element and the next element on the descent for `key` - both lie on the search path of the key asked for */
+    for (tnode *e = root->node; e; e = key < ((hnode *)e)->key ? e->left : e->right)
+    {
+        hnode *v;
+        alt_key = key;
+        v = (hnode *)T_(search)(root, e, cmp_alt);
+        VF_COUNT("search-with-a-resident-element-as-context");
+        if (((hnode *)e)->key != key) { VF_COUNT("search-resident-probe-stored-under-another-key"); }
+        if (v != h) { vf_viol(TN "/search/resident-element-as-context", "key %d asked for through a comparator that reads it from elsewhere, context = the resident element with key %d: search returns %s (key %d), the lookup by key returns %s", key, ((hnode *)e)->key, v ? "a node" : "null", v ? v->key : -1, h ? "a node" : "null"); }
+        if (e != root->node || ((hnode *)e)->key == key) { break; }
     }
 }
 
